@@ -19,7 +19,7 @@ VARIABLES l, o
 NoRec == [role |-> "", prev |-> "", cur |-> "", fl |-> ""]
 BB(x) == [A |-> x, B |-> x]
 ObsInit == [rec |-> BB(NoRec), claim |-> "none", crashes |-> FALSE, faults |-> FALSE, opened |-> {}, openby |-> BB(FALSE), spentby |-> BB(FALSE),
-            lostopen |-> BB(FALSE), lostspend |-> BB(FALSE), v |-> {}, rates |-> <<>>, chain |-> "btc", q |-> <<>>, hasq |-> FALSE, drift |-> "", t |-> 0]
+            lostopen |-> BB(FALSE), lostspend |-> BB(FALSE), lossyTo |-> BB(FALSE), idr |-> BB(FALSE), v |-> {}, rates |-> <<>>, chain |-> "btc", q |-> <<>>, hasq |-> FALSE, drift |-> "", t |-> 0]
 HasFl(fl, c) == \E i \in 1..Len(fl) : SubSeq(fl, i, i) = c
 SetOf(s) == {s[i] : i \in 1..Len(s)}
 
@@ -49,6 +49,9 @@ ApplyEv(ob, e) ==
     [] e.e = "htlcres" -> [ob EXCEPT !.claim = IF e.res = "settled" THEN "succeeded" ELSE "failed"]
     [] e.e = "open" -> [ob EXCEPT !.opened = @ \cup {[tx |-> e.tx, hash |-> e.hash, vout |-> e.vout]}, !.openby[e.n] = TRUE]
     [] e.e = "spend" -> IF e.ok THEN [ob EXCEPT !.spentby[e.n] = TRUE] ELSE ob
+    [] e.e = "lost" -> [ob EXCEPT !.lossyTo[e.n] = TRUE]
+    [] e.e = "recv" -> IF e.res = "down" THEN [ob EXCEPT !.lossyTo[e.n] = TRUE]
+                       ELSE IF Has(e, "why") /\ e.pre # "" THEN [ob EXCEPT !.idr[e.n] = TRUE] ELSE ob
     [] e.e = "crash" -> [ob EXCEPT !.crashes = TRUE,
                                    !.lostopen[e.n] = @ \/ (ob.openby[e.n] /\ ~HasFl(ob.rec[e.n].fl, "o")),
                                    !.lostspend[e.n] = @ \/ (ob.spentby[e.n] /\ ~HasFl(ob.rec[e.n].fl, "c"))]
@@ -63,7 +66,8 @@ CheckEv(ob, e, st) ==
          ChkLeaks(e.k, SetOf(e.lk))
          \cup (IF e.k = "coop_close" /\ e.res # "down" THEN ChkCoopRecv(ob.claim, ob.crashes, ob.faults) ELSE {})
          \cup (IF e.res \notin {"down", "crash"}
-               THEN ChkRecv(e.k, e.dup, e.res, e.pre, e.to, SetOf(e.sent), IF e.k \in ReqKinds THEN RoleOfReq(e.k) ELSE ob.rec[e.n].role) ELSE {})
+               THEN ChkRecv(e.k, IF Has(e, "why") THEN "cancel-id-in-use" ELSE e.k, e.dup, e.res, e.pre, e.to, SetOf(e.sent),
+                            IF e.k \in ReqKinds THEN RoleOfReq(e.k) ELSE ob.rec[e.n].role, ob.lossyTo[e.n], ob.crashes \/ ob.faults) ELSE {})
     [] e.e = "fault" -> {V("D5", "D5|handler-" \o e.what \o "|" \o e.in, FALSE)}
     [] OTHER -> {}
 RECURSIVE Fold(_, _, _, _)
@@ -85,7 +89,7 @@ EndChecksObs(ob) ==
       txs == [i \in 1..Len(q.txs) |-> TxQ(q.txs[i])]
   IN ChkEndAtomic(txs, rec(maker), rec(taker), ob.lostopen[maker], ob.lostspend[taker], ob.crashes, ob.faults)
      \cup ChkEndPaid(q.cpaid, rec(taker), ob.lostspend[taker], ob.crashes, ob.faults)
-     \cup ChkEndNode(rec("A"), q.A.act, q.A.up, ob.lostspend.A) \cup ChkEndNode(rec("B"), q.B.act, q.B.up, ob.lostspend.B)
+     \cup ChkEndNode(rec("A"), q.A.act, q.A.up, ob.lostspend.A, ob.idr.A) \cup ChkEndNode(rec("B"), q.B.act, q.B.up, ob.lostspend.B, ob.idr.B)
 
 Sigs(vs) == {x.sig : x \in vs}
 InitT == /\ l = 1 /\ o = ObsInit /\ cf = [name |-> "trace", chain |-> "btc"] /\ w = [WInit EXCEPT !.tip = 1000] /\ sched = <<>>
@@ -96,16 +100,16 @@ StepT ==
             /\ cf' = [name |-> "trace", chain |-> e.chain]
             /\ w' = [WInit EXCEPT !.tip = IF e.chain = "btc" THEN 1000 ELSE 5000]
             /\ o' = [ObsInit EXCEPT !.rates = e.rates, !.chain = e.chain, !.t = e.t]
-       [] e.ev = "step" ->
-            LET st == NormStep(e.st)
-                w1 == IF o.drift = "" THEN Step(w, st) ELSE w
-                real == SnapOfQ(e.q)
-                model == Snapshot(w1)
-                o0 == [o EXCEPT !.faults = @ \/ st.f # None]
-                o1 == Fold(o0, e.evs, 1, st)
-                o2 == [o1 EXCEPT !.q = e.q, !.hasq = TRUE, !.v = @ \cup QuiesceChecks(o1, e.q),
-                                 !.drift = IF o.drift = "" /\ model # real THEN "step " \o ToString(e.i) \o " (" \o st.a \o "): " \o ToString(Describe(model, real)) ELSE @]
-            IN /\ w' = w1 /\ o' = o2 /\ UNCHANGED cf
+       [] e.ev = "step" ->      \* (bounded quantifiers over singleton sets bind VALUES: each expensive expression is evaluated once)
+            \E st \in {NormStep(e.st)} :
+            \E w1 \in {IF o.drift = "" THEN Step(w, st) ELSE w} :
+            \E o1 \in {Fold([o EXCEPT !.faults = @ \/ st.f # None], e.evs, 1, st)} :
+            \E dr \in {IF o.drift # "" THEN o.drift ELSE
+                        LET real == SnapOfQ(e.q)  model == Snapshot(w1) IN
+                        IF model = real THEN "" ELSE "step " \o ToString(e.i) \o " (" \o st.a \o "): " \o ToString(Describe(model, real))} :
+              /\ w' = w1
+              /\ o' = [o1 EXCEPT !.q = e.q, !.hasq = TRUE, !.v = @ \cup QuiesceChecks(o1, e.q), !.drift = dr]
+              /\ UNCHANGED cf
        [] e.ev = "end" ->
             LET ov == o.v \cup (IF e.closed /\ o.hasq THEN EndChecksObs(o) ELSE {})
                 mv == w.v \cup (IF e.closed THEN EndChecks(w) ELSE {})
